@@ -329,6 +329,11 @@ func init() {
 					}
 					for k := 0; k < len(stream); k++ {
 						try(stream[:k], fmt.Sprintf("truncation at %d", k))
+						if k <= 8 { // the same bytes in a slice of exactly that capacity (what a short read from a socket looks like)
+							exact := make([]byte, k)
+							copy(exact, stream[:k])
+							try(exact, fmt.Sprintf("truncation at %d, capacity %d", k, k))
+						}
 					}
 					for _, tail := range [][]byte{{0}, {0xff}, []byte("trailing garbage"), stream} {
 						try(append(append([]byte(nil), stream...), tail...), fmt.Sprintf("%d trailing bytes", len(tail)))
